@@ -714,19 +714,30 @@ class RewriteRuleSet:
                             )
                         continue
                     initializers = graph_or_function.initializers
+                    # Names of the initializers of every graph of the model: an initializer
+                    # of a nested graph must not shadow one of an enclosing graph either.
+                    taken = {
+                        name: value
+                        for graph in itertools.chain(
+                            model.graphs(),
+                            *(function.subgraphs() for function in model.functions.values()),
+                        )
+                        for name, value in graph.initializers.items()
+                    }
                     for initializer in delta.new_initializers:
                         name = initializer.name
-                        if name in initializers and initializers[name] is not initializer:
+                        if name in taken and taken[name] is not initializer:
                             # Never overwrite an initializer that is already registered:
                             # its consumers would be left without a definition. Register
                             # the new one under a fresh name instead.
                             if verbose:
                                 print(f"Initializer {name} already exists.")
                             index = 1
-                            while f"{name}_{index}" in initializers:
+                            while f"{name}_{index}" in taken:
                                 index += 1
                             initializer.name = f"{name}_{index}"
                         initializers[initializer.name] = initializer  # type: ignore[index]
+                        taken[initializer.name] = initializer  # type: ignore[index]
                 # TODO: This does not yet handle the problem of determining the correct insertion point
                 # for inserted nodes in the case of patterns with multiple output-nodes. The following
                 # is sufficient for patterns with a single output-node "node", which can serve as the
